@@ -73,6 +73,23 @@ def _near_pool(rng):
     return _NEAR[k]
 
 
+def alias_strays(rng, mid, f):
+    """Foreign fragments that a PACKED sequencing key would take for the expected one: the group expects (id `mid`,
+    number `f`); for another id b the number f + s * (code(mid) - code(b)), s a plausible packing stride (a nibble, a
+    decimal digit, five bits ...), with code(absent) = 0 and code(x) = x + 1 or x.  All of them are foreign
+    (another id) and must be refused."""
+    out = []
+    for codes in (lambda x: 0 if x is None else x + 1, lambda x: 0 if x is None else x):
+        for b in (None, 0, 1, 2, 3, 9):
+            if b == mid:
+                continue
+            for stride in (8, 10, 16, 32, 64, 100, 128):
+                g = f + stride * (codes(mid) - codes(b))
+                if 1 <= g <= 255 and g != f:
+                    out.append(ais.sentence(gen.random_alphabet(rng, 4), nf=max(g, 2), fn=g, mid=b, fill=0))
+    return out
+
+
 def noise_line(rng):
     """A line that must leave no trace: rejected by form / checksum, or an unfragmented sentence."""
     r = rng.random()
@@ -89,6 +106,12 @@ def noise_line(rng):
         if rng.random() < 0.4:
             return ais.sentence(gen.random_alphabet(rng, 5), nf=0, fn=rng.choice([1, 1, 0]), mid=rng.choice([None, 0, 1, 2, 3, 5]), fill=0)
         return ais.sentence(gen.random_alphabet(rng, 5), nf=rng.choice([1, 2, 3, 9]), fn=0, mid=rng.choice([None, 0, 1, 2, 3, 5]), fill=0)
+    if r < 0.40:
+        # a fragment with a number far beyond anything open (16, 17, 18, 32+k, 255 ...), any id: rejected by the
+        # sequencing (a key that packs id and number into one word must keep them apart)
+        g = rng.choice([16, 17, 18, 19, 32, 33, 34, 48, 64, 128, 129, 254, 255])
+        return ais.sentence(gen.random_alphabet(rng, 5), nf=rng.choice([g, g, 255, g + 1 if g < 255 else 255]), fn=g,
+                            mid=rng.choice([None, None, 0, 1, 2, 3]), fill=0, channel=rng.choice([b"A", b"B"]))
     if r < 0.42:
         # a fragment of any position, well formed, with a wrong checksum
         n = rng.choice([2, 3, 4, 9])
@@ -184,9 +207,32 @@ class C05:
             dec = last_dec
             ops.append("#whole " + L(ais.sentence(payload, fill=fill), 1, dec))
             yield (f"{kind}", ops)
+        # conversions of results: Some/Ok exactly for Complete - also for the odd shapes the grammar lets through
+        # (number above the count, count 0), for both conversions
+        ops = ["N 0"]
+        for (nf_, fn_) in ((1, 1), (1, 2), (1, 5), (1, 255), (0, 1), (2, 1), (2, 2), (3, 2), (0, 0), (1, 0)):
+            for conv in "or":
+                p_, f_ = gen.valid_message_payload(rng, rng.choice([1, 5, 18]))
+                ops += ["N 0", L(ais.sentence(p_, fill=f_, nf=nf_, fn=fn_, mid=rng.choice([None, 3])), 0, rng.randrange(2), conv)]
+        yield ("conversions", ops)
 
     def judge(self, rep, cfg, label, ops, impl, model):
         rep.count(label)
+        if label == "conversions":
+            for op, a, m in zip(ops, impl, model):
+                if not op.startswith("L "):
+                    continue
+                rep.evaluations += 1
+                pa = parse_answer(a)
+                want = {"C": ("some:same", "ok:same"), "I": ("none", "err")}.get(pa["cls"])
+                if want and pa.get("conv") not in want:
+                    rep.violation(f"C05: converting a {'Complete' if pa['cls'] == 'C' else 'Incomplete'} result gave {pa.get('conv')!r}",
+                                  {"cfg": cfg, "ops": ["N 0", op], "impl": a, "model": m})
+                    return
+                if a.rsplit(" st=", 1)[0] != m.rsplit(" st=", 1)[0]:
+                    rep.violation("C05: model and implementation disagree on an oddly numbered sentence", {"cfg": cfg, "ops": ["N 0", op], "impl": a, "model": m})
+                    return
+            return
         frags = [(op, a) for op, a in zip(ops, impl) if op.startswith("L ") is False and op.startswith("#frag")]
         whole = [a for op, a in zip(ops, impl) if op.startswith("#whole")][0]
         n = len(frags)
@@ -412,6 +458,15 @@ class C06:
                     ops.append(L(rng.choice(extra), 0, dec))
             yield ("random", ops)
 
+    def extra_run(self, rep, tier, cfgs):
+        """The command-line tool feeds one parser: interleaved groups, also from different talkers, obey the same rule."""
+        import random
+        okb, out, binary = core.cli_build()
+        if not okb:
+            return
+        c20 = C20()
+        c20.judge_streams(rep, binary, [s_ for s_ in c20.special_streams(random.Random(6)) if s_.count(b",2,") >= 2][-8:], "C06")
+
     def judge(self, rep, cfg, label, ops, impl, model):
         rep.count(label)
         spec = SpecGroup(384 if cfg == "noalloc" else None)
@@ -503,10 +558,13 @@ class C17:
             mid = rng.choice([None, 1, 7])
             _, fl = frag_lines(rng, p, f, n, mid)
             cut = rng.randrange(1, n)
-            kinds = rng.choice(["any", "rejected", "unfragmented", "big-foreign"])
+            kinds = rng.choice(["any", "rejected", "unfragmented", "big-foreign", "aliased-foreign"])
             burst = []
+            pool = alias_strays(rng, mid, cut + 1) if kinds == "aliased-foreign" else []
             while len(burst) < m:
-                if kinds == "big-foreign":
+                if kinds == "aliased-foreign" and pool:
+                    l = rng.choice(pool)
+                elif kinds == "big-foreign":
                     # a fragment of another group (different id, not a first fragment) with a long payload
                     l = ais.sentence(gen.random_alphabet(rng, rng.choice([150, 300, 380])), nf=5, fn=rng.choice([2, 3, 5]),
                                      mid=(mid or 0) + 1, fill=0)
@@ -698,6 +756,12 @@ def mixed_stream(rng, tier, n):
             sizes = [rng.choice([10, 100, 200, 380, 384]) for _ in range(k)]
             for i, sz in enumerate(sizes):
                 ops.append(L(ais.sentence(gen.random_alphabet(rng, sz), nf=k, fn=i + 1, mid=1, fill=0), 0, rng.randrange(2)))
+        elif r < 0.37:
+            # a payload at or just below the 384-byte capacity inside a much longer line (tag block, bytes after the checksum)
+            pl = gen.random_alphabet(rng, rng.choice([300, 350, 380, 383, 384]))
+            tb_ = rand_bytes(rng, rng.choice([5, 10, 30, 61, 200]), exclude=b"\\\n") if rng.random() < 0.7 else None
+            tail_ = rand_bytes(rng, rng.choice([0, 20, 100, 400]), exclude=b"\n")
+            ops.append(L(ais.sentence(pl, fill=0, tagblock=tb_, tail=b" " + tail_ if tail_ else b""), 0, rng.randrange(2)))
         elif r < 0.4:
             ops.append(L(ais.sentence(gen.random_alphabet(rng, rng.choice([383, 384, 385, 500, 513, 700])), fill=0), 0, rng.randrange(2)))
         elif r < 0.6:
@@ -946,6 +1010,25 @@ class C01:
             runs.append(("std0", deep_ops + ["N 0"] + [L(l, 0, 1) for l in near_misses(rng)]))
         else:
             rep.violation("C01: the unoptimised std harness no longer builds against /repo", {"log": blog[-800:]})
+        # very long inputs (positions beyond 2^16 bits): implementation only - the model's list-based unarmoring is
+        # quadratic, and the question here is only whether the call returns
+        vl = []
+        for n in (10922, 10923, 10924, 21846, 43691, 65536):
+            body = gen.random_alphabet(rng, n)
+            vl.append(f"U {rng.randrange(6)} {hexs(body)}")
+            if n <= 22000:
+                vl += ["N 0", L(ais.sentence(b"8" + body[1:], fill=0), 0, 1), "N 0"]
+                cut = [n * i // 6 for i in range(7)]
+                for i in range(6):
+                    vl.append(L(ais.sentence(body[cut[i]:cut[i + 1]], nf=6, fn=i + 1, mid=2, fill=0), 0, 1))
+        for cfg in cfgs:
+            ans = core.run_impl(cfg, vl, reconcile=False)
+            for op, a in zip(vl, ans):
+                rep.evaluations += 1
+                rep.count(f"{cfg}:very-long:{a.split(' ')[0]}")
+                if a.split(" ")[0] in ("panic", "abort"):
+                    rep.violation(f"C01: {cfg} build {a.split(' ')[0]}s on an input of {len(op) // 2} bytes", {"cfg": cfg, "ops": [op], "impl": a})
+                    break
         for cfg, ops in runs:
             try:
                 impl = core.run_impl(cfg, ops)
@@ -1081,6 +1164,9 @@ class C20:
             return False
         for g, e in zip(got, exp):
             echo = e.split("\t", 1)[0]
+            if "\t" in g and g.startswith('"') and g.split("\t", 1)[0] != echo:
+                return False        # same layout as today (`"<line>"<TAB>...`) but another line is echoed
+
             if len(echo) >= 2 and echo[0] == '"' and echo[-1] == '"' and "\\" not in echo and echo[1:-1] not in g:
                 return False        # the record is about another line (plain-text lines are recognisable in any layout)
             if is_out and e.split("\t", 1)[-1] not in g:
@@ -1097,6 +1183,34 @@ class C20:
             parts.pop()
         return parts
 
+    def special_streams(self, rng):
+        """Stream-level situations: a byte-order mark (or other prefix) on the first line only and on later lines;
+        the two fragments of a group 3 ... 300 lines apart; alternating fragments of groups from different talkers."""
+        out = []
+        p1_, f1_ = gen.valid_message_payload(rng, 1)
+        s1 = ais.sentence(p1_, fill=f1_)
+        s2 = ais.sentence(gen.valid_message_payload(rng, 18)[0], fill=0, channel=b"B")
+        for pre in (b"\xef\xbb\xbf", b"\xff\xfe", b"\xfe\xff", b"\x00", b" ", b"\r"):
+            out.append(pre + s1 + b"\n" + pre + s1 + b"\n" + s1 + b"\n")
+            out.append(pre + s1 + b"\n" + s2 + b"\n")
+            out.append(s2 + b"\n" + pre + s1 + b"\n")
+        p_, f_ = gen.valid_message_payload(rng, 5)
+        for gap in (3, 50, 99, 100, 101, 250, 300):
+            _, ls = frag_lines(rng, p_, f_, 2, 7)
+            mid_lines = [ais.sentence(gen.valid_message_payload(rng, 1)[0], fill=0) if k % 3 else noise_line(rng).replace(b"\n", b" ")
+                         for k in range(gap)]
+            out.append(b"\n".join([ls[0]] + mid_lines + [ls[1]]) + b"\n")
+        for _ in range(4):
+            ta, tb = rng.sample([b"AI", b"AB", b"BS", b"SA", b"XX"], 2)
+            # (decodable payloads: a delivered group is a stdout record, a refused fragment a stderr record)
+            pa_, pb_ = gen.valid_message_payload(rng, 1)[0][:28], gen.valid_message_payload(rng, 18)[0][:28]
+            ida, idb = rng.choice([(1, 1), (1, 2), (None, None), (3, None)])
+            la = [ais.sentence(pa_[:14], nf=2, fn=1, mid=ida, fill=0, talker=ta), ais.sentence(pa_[14:], nf=2, fn=2, mid=ida, fill=0, talker=ta)]
+            lb = [ais.sentence(pb_[:14], nf=2, fn=1, mid=idb, fill=0, talker=tb), ais.sentence(pb_[14:], nf=2, fn=2, mid=idb, fill=0, talker=tb)]
+            out.append(b"\n".join([la[0], lb[0], la[1], lb[1]]) + b"\n")
+            out.append(b"\n".join([la[0], lb[0], lb[1], la[1]]) + b"\n")
+        return out
+
     def run(self, rep, tier, rng, cfgs):
         ok, out, binary = core.cli_build()
         if not ok:
@@ -1105,14 +1219,18 @@ class C20:
         n = 60 if tier == "quick" else 600
         streams = [b"", b"\n", b"\n\n", b"\xff\n", b"!AIVDM,1,1,,A,15M,0*00", b"\r\n"]
         streams += self.block_streams(rng)
+        streams += self.special_streams(rng)
         streams += [self.stream(rng) for _ in range(n)]
+        self.judge_streams(rep, binary, streams, "C20")
+
+    def judge_streams(self, rep, binary, streams, pid):
         for data in streams:
             rep.evaluations += 1
             recs = self.split_records(data)
             try:
                 p = subprocess.run([binary], input=data, stdout=subprocess.PIPE, stderr=subprocess.PIPE, timeout=60)
             except subprocess.TimeoutExpired:
-                rep.violation("C20: aisparser did not reach end of input", {"stream_hex": data.hex()})
+                rep.violation(f"{pid}: aisparser did not reach end of input", {"stream_hex": data.hex()})
                 continue
             ops = ["N 0", "N 1"]
             for r in recs:
@@ -1126,7 +1244,7 @@ class C20:
             # the model's record splitting, std's BufRead::split and this script's must agree
             want_split = "ok %d %s" % (len(recs), ",".join(hexs(r) for r in recs))
             if impl[-1].strip() != want_split.strip() or model[-1].strip() != want_split.strip():
-                rep.violation("C20: record splitting differs between BufRead::split, the model and the checker",
+                rep.violation(f"{pid}: record splitting differs between BufRead::split, the model and the checker",
                               {"stream_hex": data.hex(), "impl": impl[-1], "model": model[-1], "checker": want_split})
             for i, r in enumerate(recs):
                 la, ra = impl[2 + 2 * i], impl[3 + 2 * i]
@@ -1150,14 +1268,14 @@ class C20:
                    "expected_stdout": exp_out[:20], "expected_stderr": exp_err[:20]}
             rep.count(f"records:{len(recs)>0}")
             if p.returncode != 0:
-                rep.violation(f"C20: aisparser exited with status {p.returncode}", ctx)
+                rep.violation(f"{pid}: aisparser exited with status {p.returncode}", ctx)
             elif got_out != exp_out and not self.same_records(got_out, exp_out, True):
-                rep.violation("C20: stdout records differ from one record per completed line, in order", ctx)
+                rep.violation(f"{pid}: stdout records differ from one record per completed line, in order", ctx)
             elif got_err != exp_err and not self.same_records(got_err, exp_err, False):
-                rep.violation("C20: stderr records differ from one record per rejected line, in order", ctx)
+                rep.violation(f"{pid}: stderr records differ from one record per rejected line, in order", ctx)
             elif not tie_ok:
                 ctx.update(ctx_tie)
-                rep.violation("C20: model and library disagree on a line of the stream (the records the tool prints are "
+                rep.violation(f"{pid}: model and library disagree on a line of the stream (the records the tool prints are "
                               "the library's, so they are not the specified ones)", ctx)
             if exp_out and exp_err:
                 rep.nontrivial.add(data)
